@@ -423,13 +423,13 @@ def run_block(case, ctx):
         if r["outcome"] == "exception":
             ctx.violation("raises:%s:%s" % (r["exc"], r["where"]), "%s: %s (%s)" % (r["exc"], r.get("msg"), where), input_hex=inputs[i])
         elif r["outcome"] == "timeout":
-            ctx.violation("timeout", "load did not finish in %.0f s (%s)" % (WATCHDOG_S, where), input_hex=inputs[i])
+            ctx.violation("timeout:%s" % path_tag, "load did not finish in %.0f s (%s)" % (WATCHDOG_S, where), input_hex=inputs[i])
         elif r["outcome"] == "process-died":
             ctx.violation("process-died:signal%d:%s" % (r["signal"], path_tag), "interpreter died with signal %d (%s)" % (r["signal"], where), input_hex=inputs[i])
         elif r["outcome"].startswith("other-return"):
             ctx.violation("returns:%s" % r["outcome"], where, input_hex=inputs[i])
         if r["wall"] > 1.0 and r["outcome"] != "timeout":
-            ctx.violation("slow", "load took %.1f s (%s)" % (r["wall"], where), input_hex=inputs[i])
+            ctx.violation("slow:%s" % path_tag, "load took %.1f s (%s)" % (r["wall"], where), input_hex=inputs[i])
         if r["rss_delta_kb"] > 256 * 1024:
             ctx.violation("memory:%s" % path_tag, "RSS grew by %d MB (%s)" % (r["rss_delta_kb"] // 1024, where), input_hex=inputs[i])
         for sig, msg in r["bad_events"]:
